@@ -2341,3 +2341,22 @@ Proof.
     rewrite E in Hf. specialize (Hf 30 ltac:(change (blen lpl_ex_D) with 56; lia)).
     apply tracked_amem in Hf. cbn [amem c_hole c_data] in Hf. unfold c_total in Hf. cbn [c_hole c_data] in Hf. lia.
 Qed.
+
+(* a freshly created interface: no slot is claimed, one is free *)
+Lemma lpf_slots_new_avail t : exists j, (j < length lpf_slots_new)%nat /\ slot_avail t (nth j lpf_slots_new lpf_slot_new).
+Proof. exists 0%nat. split; [vm_compute; lia | left; reflexivity]. Qed.
+
+Theorem lpl_e2e_in_order_fresh d lls lld ctx c D tag fill txfill timeout octs arr :
+  lp_dgram_wf d lls lld -> lp_compressed d lls lld = Ok c -> lp_ipv6_bytes d = Ok D -> lp_ctx_wf ctx ->
+  0 <= tag < 65536 -> 0 <= fill < 256 -> 0 <= txfill < 256 -> 0 <= timeout ->
+  lpf_needs_frag (blen c) (lpf_ieee_len (lpl_ll_bytes lld) (lpl_ll_bytes lls)) = true -> blen c <= lpf_BUFFER ->
+  lpl_tx_octets d lls lld tag fill txfill = Ok octs ->
+  map ar_payload arr = octs -> Forall (fun a => ar_lls a = lls /\ ar_lld a = lld) arr ->
+  Forall (fun a => ar_time a <= match arr with a0 :: _ => ar_time a0 | [] => 0 end + timeout) arr ->
+  exists ss', lpl_run ctx timeout arr lpf_slots_new = Ok (ss', repeat None (length arr - 1) ++ [Some D]).
+Proof.
+  intros Hwf Hc HD Hctx Htag Hfill Htx Hto Hneed Hbuf Hocts Hpay Hll Htime.
+  destruct (lpl_e2e_in_order d lls lld ctx c D tag Hwf Hc HD Hctx Htag Hneed Hbuf fill txfill timeout Hfill Htx octs Hocts
+              arr lpf_slots_new Hto (kstate_new _ _) Hpay Hll (lpf_slots_new_avail _) Htime) as (ss' & _ & E & _).
+  exists ss'. exact E.
+Qed.
